@@ -341,7 +341,7 @@ func c19(c *core.Ctx, r *core.Report) {
 			switch row {
 			case "total":
 				return "C19.R1"
-			case "lookup", "has-values":
+			case "lookup", "has-values", "own-arguments":
 				return "C19.R3"
 			case "required":
 				return "C19.R5"
